@@ -669,13 +669,40 @@ def _table_dispatch(jmod, fn: FuncInfo):
     return None
 
 
-def _assert_class_literal(fn: Optional[FuncInfo]) -> Optional[str]:
-    if fn is None:
+def _assert_class_literal(fn: Optional[FuncInfo], _bind: Optional[Dict[str, str]] = None, _depth: int = 0) -> Optional[str]:
+    """The <class> value a parse function asserts: the literal handed to `assert_class`, directly or through private helper
+    functions of the module that are given the literal (`_open_element(element, 'component', ..)`)."""
+    if fn is None or _depth > 3:
         return None
-    for c in iter_own_nodes(fn.node):
-        if isinstance(c, ast.Call) and isinstance(c.func, ast.Attribute) and c.func.attr == 'assert_class' and c.args \
-                and isinstance(c.args[0], ast.Constant):
-            return c.args[0].value
+    bind = _bind or {}
+    # in statement order: the element itself is opened first, nested elements (whose parsers may have been expanded in place)
+    # come later
+    ordered = [c for st in fn.node.body for c in ast.walk(st) if isinstance(c, ast.Call)]
+    for c in ordered:
+        if isinstance(c.func, ast.Attribute) and c.func.attr == 'assert_class' and c.args:
+            a = c.args[0]
+            if isinstance(a, ast.Constant):
+                return a.value
+            if isinstance(a, ast.Name) and a.id in bind:
+                return bind[a.id]
+            return None
+        if isinstance(c, ast.Call) and isinstance(c.func, ast.Name) and c.func.id.startswith('_') and c.func.id in fn.module.functions:
+            g = fn.module.functions[c.func.id]
+            params = [a.arg for a in g.params()]
+            b2: Dict[str, str] = {}
+            for i, a in enumerate(c.args):
+                if i < len(params):
+                    if isinstance(a, ast.Constant) and isinstance(a.value, str):
+                        b2[params[i]] = a.value
+                    elif isinstance(a, ast.Name) and a.id in bind:
+                        b2[params[i]] = bind[a.id]
+            for k in c.keywords:
+                if k.arg and isinstance(k.value, ast.Constant) and isinstance(k.value.value, str):
+                    b2[k.arg] = k.value.value
+            if b2:
+                r = _assert_class_literal(g, b2, _depth + 1)
+                if r is not None:
+                    return r
     return None
 
 
